@@ -675,7 +675,7 @@ func (g *G) genID(n int) []kase {
 			add("b", &spec{Ctor: "NewNumericNodeID", Ns: ns, ID: v})
 		}
 	}
-	for _, s := range []string{"", "a;b", ";", "s=a;b", "ns=1;i=5", "i=5", "=", "nsu=uri;s=x", "a\nb", "foo", "ns=", "b=", "g=", "\x00\xff"} {
+	for _, s := range []string{"", "a;b", ";", ";a", ";;", ";ns=2;i=5", "a;", "s=a;b", "ns=1;i=5", "i=5", "=", "nsu=uri;s=x", "a\nb", "foo", "ns=", "b=", "g=", "\x00\xff"} {
 		add("b", &spec{Ctor: "NewStringNodeID", Ns: 0, Str: phx(s)})
 		add("b", &spec{Ctor: "NewStringNodeID", Ns: 1, Str: phx(s)})
 	}
